@@ -107,7 +107,7 @@ def run(eng, tier):
         for l in spec['legs']: legs_seen[l[0]] += 1
         eng.ob(not ua and not ue and not bad, PROP, 'transfers', cname,
                'match (%s): transfers differ from the spec; unexpected: %s; missing: %s' % (cname, [(K(d), dom.show(a), K(t)) for d, a, t in ua], [(K(d), dom.show(a), K(t)) for d, a, t in ue]),
-               where=(trs[0]['call_site'] if trs else None), detail=p.describe(),
+               where=(trs[0].get('call_site') if trs else None), detail=p.describe(),
                sample={'rule': 'transfers', 'class': cname, 'legs': [(n, K(d), K(a)[:120], K(t)) for n, d, a, t in spec['legs']]})
         check_exact_conversions(eng, PROP, p)
         for t in trs:
